@@ -104,9 +104,13 @@ var hsBudgets = []int64{30, 300, 3000, 200000, 200000, 200000}
 func (e hostsafe) genSource(r *core.PRNG) ([]byte, string) {
 	c := Corpus()
 	var src []byte
-	switch n := r.Intn(26); {
+	switch n := r.Intn(27); {
 	case n >= 25:
-		src = []byte(GenCycle(r.Fork()))
+		if r.Bool() {
+			src = []byte(GenCycle(r.Fork()))
+		} else {
+			src = []byte(GenOdd(r.Fork()))
+		}
 	case n >= 20:
 		src = []byte(GenWild(r.Fork(), r.Chance(1, 4)))
 	case n < 12:
